@@ -309,7 +309,11 @@ impl BuiltInFunction {
                         if keep {
                             let underlying = self.underlying.0.borrow();
                             let this_index: usize = (self.index.get() - 1).try_into()?;
-                            result.push(underlying[this_index].clone());
+
+                            // the callback may have shrunk the list it is filtering
+                            if let Some(element) = underlying.get(this_index) {
+                                result.push(element.clone());
+                            }
                         }
 
                         Ok(<i32 as TryInto<usize>>::try_into(self.index.get())?
